@@ -22,9 +22,15 @@ Pats == <<
   [neg |-> FALSE, anch |-> TRUE,  dir |-> FALSE, segs |-> <<"d", "*">>],    \* 16 d/*
   [neg |-> TRUE,  anch |-> TRUE,  dir |-> FALSE, segs |-> <<"a.md">>],      \* 17 !/a.md
   [neg |-> TRUE,  anch |-> FALSE, dir |-> TRUE,  segs |-> <<"e">>],         \* 18 !e/   (a negated directory pattern re-includes the directory)
-  [neg |-> TRUE,  anch |-> FALSE, dir |-> TRUE,  segs |-> <<"d">>]          \* 19 !d/
+  [neg |-> TRUE,  anch |-> FALSE, dir |-> TRUE,  segs |-> <<"d">>],         \* 19 !d/
+  [neg |-> TRUE,  anch |-> FALSE, dir |-> FALSE, segs |-> <<"e">>],         \* 20 !e    (negated, matches the directory and nothing below it)
+  [neg |-> FALSE, anch |-> TRUE,  dir |-> FALSE, segs |-> <<"e", "a.md">>], \* 21 e/a.md (a slash in the middle anchors the pattern)
+  [neg |-> FALSE, anch |-> TRUE,  dir |-> FALSE, segs |-> <<"*", "a.md">>], \* 22 */a.md (one level, not any)
+  [neg |-> TRUE,  anch |-> FALSE, dir |-> FALSE, segs |-> <<"*.md">>],      \* 23 !*.md
+  [neg |-> FALSE, anch |-> TRUE,  dir |-> TRUE,  segs |-> <<"**", "e">>],   \* 24 **/e/
+  [neg |-> TRUE,  anch |-> TRUE,  dir |-> TRUE,  segs |-> <<"d", "e">>]     \* 25 !d/e/
 >>
-Text == <<"a.md", "/a.md", "d/a.md", "d/", "e/", "/e/", "*.md", "d/*.md", "**/a.md", "d/**", "?.md", "!a.md", "d/e", "e", "!d/a.md", "d/*", "!/a.md", "!e/", "!d/">>
+Text == <<"a.md", "/a.md", "d/a.md", "d/", "e/", "/e/", "*.md", "d/*.md", "**/a.md", "d/**", "?.md", "!a.md", "d/e", "e", "!d/a.md", "d/*", "!/a.md", "!e/", "!d/", "!e", "e/a.md", "*/a.md", "!*.md", "**/e/", "!d/e/">>
 \* universe: files as paths (seq of names), all directories implied
 Files == { <<"a.md">>, <<"b.md">>, <<"d", "a.md">>, <<"d", "b.md">>, <<"d", "e", "a.md">>, <<"d", "e", "b.md">>, <<"e", "a.md">> }
 IgnoreDirs == { <<>>, <<"d">> }            \* directories that may hold a .gitignore
